@@ -4,7 +4,9 @@
   * `Spec`   — the FIXED statement of what "BitTorrent-shaped" / "IPv8-shaped" / "allowed" mean (hand-written once from
                the property text, BEP 29 / BEP 15 / bencoding and the IPv8 header; never regenerated).
   * `Gen.*`  — (GenPolicy.lean) the classifier and `is_allowed` as the code has them NOW (translated on every run).
-  * state machine — hand-written mirror of
+  * `Gen.*_prog` — (GenPaths.lean) sendto / datagram_received / exit_data / on_data's dispatch as decision trees over the
+               IR of IR.lean, translated on every run; this file gives the atoms and actions their meaning.
+  * state machine — the rest is a hand-written mirror of
         TunnelCommunity.on_data (community.py l.965-1008) / exit_data (l.1081-1100),
         TunnelExitSocket.enable / create_transports / sendto / on_address+resolve / datagram_received(_ipv4/_ipv6) /
         tunnel_data (exit_socket.py l.145-260),
@@ -13,6 +15,7 @@
   Strings (host names / textual IP addresses) are kept as their UTF-8 bytes.
 -/
 import Ipv8.C06.GenPolicy
+import Ipv8.C06.GenPaths
 
 namespace Ipv8.C06
 open Ipv8
@@ -133,16 +136,45 @@ def pushBounded (q : List (Bytes × Dest)) (x : Bytes × Dest) : List (Bytes × 
   let q' := q ++ [x]
   q'.drop (q'.length - Gen.QUEUE_MAXLEN)
 
-/-- `TunnelExitSocket.sendto` -/
+/-! ### meaning of the IR atoms and actions at the level of one exit socket (sendto, datagram_received) -/
+
+/-- what a socket-level program sees: configured flags, prefix, the packet, and the address argument
+    (`destination` for sendto, `source` for datagram_received) -/
+structure Env where
+  fl : List Nat
+  pfx : Bytes
+  data : Bytes
+  dest : Dest
+
+def condSock (e : Env) (s : Sock) : Cond → Bool
+  | .allowed => gate e.fl e.pfx e.data
+  | .isDomain => e.dest.kind = .dom
+  | .destIsNull => e.dest.isNull
+  | .hasTransport => if e.dest.kind = .v6 then s.t6 else s.t4
+  | _ => false
+
+def actSock (e : Env) (s : Sock) : Act → Sock × List Out
+  | .queueAppend => ({ s with queue := pushBounded s.queue (e.data, e.dest) }, [])
+  | .transportSend => (s, [.emit s.cid (e.dest.kind = .v6) e.data e.dest])
+  | .startResolve => ({ s with pending := s.pending ++ [(e.data, e.dest)] }, [.resolve s.cid e.dest.host e.dest.port])
+  | .tunnelData => (s, [.tunnel s.cid s.hopIp s.hopPort e.data e.dest])
+  | _ => (s, [])
+
+def interpSock (e : Env) : Prog → Sock → Sock × List Out
+  | .done, s => (s, [])
+  | .act a k, s =>
+    let r := actSock e s a
+    let r' := interpSock e k r.1
+    (r'.1, r.2 ++ r'.2)
+  | .ite c t el, s => if condSock e s c then interpSock e t s else interpSock e el s
+
+/-- `TunnelExitSocket.sendto`: the program translated from the source -/
 def sendto (flags : List Nat) (pfx : Bytes) (s : Sock) (data : Bytes) (dest : Dest) : Sock × List Out :=
-  if !gate flags pfx data then (s, [])
-  else if dest.kind = .dom then
-    ({ s with pending := s.pending ++ [(data, dest)] }, [.resolve s.cid dest.host dest.port])
-  else if dest.isNull then (s, [])      -- l.188: a resolved (or direct) destination equal to ("0.0.0.0", 0) is dropped
-  else
-    let open_ := if dest.kind = .v6 then s.t6 else s.t4
-    if !open_ then ({ s with queue := pushBounded s.queue (data, dest) }, [])
-    else (s, [.emit s.cid (dest.kind = .v6) data dest])
+  interpSock ⟨flags, pfx, data, dest⟩ Gen.sendto_prog s
+
+/-- `TunnelExitSocket.datagram_received` (after the family wrappers): the program translated from the source -/
+def recvOutside (flags : List Nat) (pfx : Bytes) (s : Sock) (data : Bytes) (src : Dest) : Sock × List Out :=
+  interpSock ⟨flags, pfx, data, src⟩ Gen.datagram_received_prog s
 
 /-- the `while self.queue: self.sendto(*self.queue.popleft())` loop of create_transports, over the packets that were
     queued when it started (packets re-queued by sendto during the loop stay queued: both transports are open then,
@@ -168,14 +200,8 @@ def removeAt {α : Type} : List α → Nat → List α
   | _ :: xs, 0 => xs
   | x :: xs, n + 1 => x :: removeAt xs n
 
-/-- what one event does to one exit socket -/
+/-- what one event other than a DATA cell does to one exit socket -/
 def sockStep (flags : List Nat) (pfx : Bytes) (s : Sock) : Ev → Sock × List Out
-  | .data srcIp _ _ dest payload =>
-    -- exit_data, after the circuit id has been looked up
-    if !s.enabled then
-      if srcIp == s.hopIp then sendto flags pfx { s with enabled := true } payload dest
-      else (s, [])
-    else sendto flags pfx s payload dest
   | .open4 _ => if s.enabled && !s.t4 then ({ s with t4 := true }, []) else (s, [])
   | .open6 _ =>
     if s.t4 && !s.t6 then flush flags pfx { s with t6 := true, queue := [] } s.queue else (s, [])
@@ -188,10 +214,10 @@ def sockStep (flags : List Nat) (pfx : Bytes) (s : Sock) : Ev → Sock × List O
       | none => (s', [])
       | some a => sendto flags pfx s' data a
   | .outside _ v6 host port payload =>
+    -- datagram_received_ipv4 / _ipv6: mapped IPv4 sources on the IPv6 socket are ignored
     if v6 && host.take 7 == mappedPrefix then (s, [])
-    else if gate flags pfx payload then
-      (s, [.tunnel s.cid s.hopIp s.hopPort payload ⟨if v6 then .v6 else .v4, host, port⟩])
-    else (s, [])
+    else recvOutside flags pfx s payload ⟨if v6 then .v6 else .v4, host, port⟩
+  | .data _ _ _ _ _ => (s, [])        -- DATA cells go through `exitData` below
   | .setFlags _ => (s, [])
 
 /-! ## TunnelCommunity -/
@@ -215,22 +241,88 @@ def viaSock (st : St) (cid : Nat) (ev : Ev) : St × List Out :=
     let r := sockStep st.flags st.pfx s ev
     ({ st with socks := setSock st.socks r.1 }, r.2)
 
-/-- the `else` branch of on_data: null-destination check, then exit_data -/
-def exitBranch (st : St) (cid : Nat) (dest : Dest) (ev : Ev) : St × List Out :=
-  if dest.isNull then (st, []) else viaSock st cid ev
+/-! ### meaning of the IR at the level of `exit_data` -/
+
+structure XEnv where
+  fl : List Nat
+  pfx : Bytes
+  srcIp : Bytes
+  data : Bytes
+  dest : Dest
+
+/-- `s` = `self.exit_sockets.get(circuit_id)` -/
+def condExit (e : XEnv) (s : Option Sock) : Cond → Bool
+  | .knownCircuit => s.isSome
+  | .sockEnabled => match s with | some x => x.enabled | none => false
+  | .srcIpIsHopIp => match s with | some x => e.srcIp == x.hopIp | none => false
+  | .destIsNull => e.dest.isNull
+  | _ => false
+
+def actExit (e : XEnv) (x : Sock) : Act → Sock × List Out
+  | .enable => ({ x with enabled := true }, [])        -- TunnelExitSocket.enable(): flag set, create_transports scheduled
+  | .sendto => sendto e.fl e.pfx x e.data e.dest
+  | _ => (x, [])
+
+/-- an action on `self.exit_sockets[circuit_id]` without such a socket is a KeyError: nothing further happens -/
+def interpExit (e : XEnv) : Prog → Option Sock → Option Sock × List Out
+  | .done, s => (s, [])
+  | .act _ _, none => (none, [])
+  | .act a k, some x =>
+    let r := actExit e x a
+    let r' := interpExit e k (some r.1)
+    (r'.1, r.2 ++ r'.2)
+  | .ite c t el, s => if condExit e s c then interpExit e t s else interpExit e el s
+
+/-- `TunnelCommunity.exit_data`: the program translated from the source, run on the socket table -/
+def exitData (st : St) (srcIp : Bytes) (cid : Nat) (dest : Dest) (payload : Bytes) : St × List Out :=
+  let r := interpExit ⟨st.flags, st.pfx, srcIp, payload, dest⟩ Gen.exit_data_prog (st.socks.find? (fun s => s.cid == cid))
+  match r.1 with
+  | some s' => ({ st with socks := setSock st.socks s' }, r.2)
+  | none => (st, r.2)
+
+/-! ### meaning of the IR at the level of `on_data` (after the payload has been decoded) -/
+
+structure DEnv where
+  srcIp : Bytes
+  srcPort : Nat
+  cid : Nat
+  dest : Dest
+  payload : Bytes
+
+def condOnData (e : DEnv) (st : St) : Cond → Bool
+  | .ownCircuit =>
+    match st.circs.find? (fun c => c.cid == e.cid) with
+    | some c => c.hopIp == e.srcIp && c.hopPort == e.srcPort
+    | none => false
+  | .destIsNull => e.dest.isNull
+  | _ => false
+
+/-- the own-circuit branch (hand-modelled): where the payload is handed to; a packet for another overlay goes to the
+    TunnelEndpoint's listeners, or is dropped when there is none -/
+def localDeliver (e : DEnv) (st : St) : List Out :=
+  match st.circs.find? (fun c => c.cid == e.cid) with
+  | some c =>
+    let k := localKind st.pfx c e.payload
+    if k == 1 && !st.tunnelEp then [] else [.loc e.cid k]
+  | none => []
+
+def actOnData (e : DEnv) (st : St) : Act → St × List Out
+  | .exitData => exitData st e.srcIp e.cid e.dest e.payload
+  | .localDeliver => (st, localDeliver e st)
+  | _ => (st, [])
+
+def interpOnData (e : DEnv) : Prog → St → St × List Out
+  | .done, st => (st, [])
+  | .act a k, st =>
+    let r := actOnData e st a
+    let r' := interpOnData e k r.1
+    (r'.1, r.2 ++ r'.2)
+  | .ite c t el, st => if condOnData e st c then interpOnData e t st else interpOnData e el st
 
 def step (st : St) (ev : Ev) : St × List Out :=
   match ev with
   | .setFlags fl => ({ st with flags := fl }, [])
-  | .data srcIp srcPort cid dest payload =>
-    match st.circs.find? (fun c => c.cid == cid) with
-    | some c =>
-      if c.hopIp == srcIp && c.hopPort == srcPort then
-        let k := localKind st.pfx c payload
-        -- a packet for another overlay is handed to the TunnelEndpoint's listeners, or dropped when there is none
-        if k == 1 && !st.tunnelEp then (st, []) else (st, [.loc cid k])
-      else exitBranch st cid dest ev
-    | none => exitBranch st cid dest ev
+  | .data srcIp srcPort cid dest payload => interpOnData ⟨srcIp, srcPort, cid, dest, payload⟩ Gen.on_data_prog st
   | .open4 cid => viaSock st cid ev
   | .open6 cid => viaSock st cid ev
   | .resolved cid _ _ => viaSock st cid ev
